@@ -19,7 +19,7 @@ from __future__ import annotations
 import ast
 import itertools
 
-from ..core import AnalysisError, assignments, call_name, dotted, names_in, provenance, short, walk_no_nested
+from ..core import AnalysisError, assignments, call_name, doc_sorted, dotted, names_in, provenance, short, walk_no_nested
 from ..util import calls_named, has_call, kwarg, norm
 from .c08 import fstring_parts
 
@@ -639,7 +639,7 @@ def r3_records(chk):
         f = prog.func(spec)
         chk.analysed(f)
         asg = assignments(f.node)
-        loops = sorted([s for s in walk_no_nested(f.node) if isinstance(s, ast.For)], key=lambda s: s.lineno)
+        loops = doc_sorted(f.node, [s for s in walk_no_nested(f.node) if isinstance(s, ast.For)])
         chk.require(len(loops) == 2, f"{f.key}: expected an atom loop and a bond loop")
         for loop, kind in zip(loops, ("ATOM", "BOND")):
             idx_name = norm(loop.target.elts[0]) if isinstance(loop.target, ast.Tuple) else "i"
@@ -709,7 +709,7 @@ def r3_records(chk):
               and len(lines) >= 5 and lines[4].strip() != sent and lines[4].strip() != "" and "{" not in lines[3])
         chk.decide(ok, "C07.R3", f"{f.key}:header", f.where(hw[0]), f"name / n_atoms n_bonds / {lines[3]} / {lines[4]}",
                    f"MOLECULE header lines {lines[:5]}: the reader expects name, then `n_atoms n_bonds ...`, type, charge type (not {sent!r})")
-        secs = [norm(c.args[0]) for c in sorted((x for x in walk_no_nested(f.node) if isinstance(x, ast.Call)), key=lambda x: x.lineno) if isinstance(c, ast.Call) and isinstance(c.func, ast.Attribute) and c.func.attr == "write"
+        secs = [norm(c.args[0]) for c in doc_sorted(f.node, [x for x in walk_no_nested(f.node) if isinstance(x, ast.Call)]) if isinstance(c, ast.Call) and isinstance(c.func, ast.Attribute) and c.func.attr == "write"
                 and c.args and isinstance(c.args[0], ast.Constant) and "@<TRIPOS>" in str(c.args[0].value)]
         chk.decide(secs == ["'@<TRIPOS>ATOM\\n'", "'@<TRIPOS>BOND\\n'"], "C07.R3", f"{f.key}:sections", f.where(), "ATOM then BOND section headers",
                    f"section headers written: {secs}")
